@@ -64,6 +64,10 @@ def cont_jobs(r, names, per_opt: int, modes=True):
             if modes and r.random() < 0.12:
                 j["mode"] = r.choice(["thread", "process"]); j["workers"] = r.choice([1, 2, 4])
             jobs.append(j)
+        # population sizes at and above the documented scale that are NOT round multiples of it
+        for off in ([1, 3] if per_opt < 10 else [1, 3, 7, 11, P0 + 1, 2 * P0 - 1]):
+            jobs.append({"opt": nm, "family": "odd-size", "cfg": {"max_cycles": r.choice([2, 5]), "population_size": P0 + off, "fitness_error": None},
+                         "task": {"vars": fams["dim3"](), "obj": r.choice(["sphere", "rastrigin"]), "minmax": r.choice(["min", "max"]), "seed": r.randint(0, 10**6)}})
         # multi-objective (weights), both directions
         for mm in (["min", "max"] if per_opt >= 4 else [r.choice(["min", "max"])]):
             jobs.append({"opt": nm, "family": "multiobj", "cfg": {"max_cycles": r.choice([1, 3]), "population_size": P0, "fitness_error": None},
